@@ -49,22 +49,22 @@ Proof.
     pose proof (fix_length _ _ _ Hf) as Hl. rewrite Hp in Hl.
     assert (Hl' : List.length (plain_names args) = List.length ((match k with RSelfRef => [] | _ => [Some "__impl"%string] end) ++ desired)).
     { rewrite Hl, <- (map_length desired_name), prefix_desired. reflexivity. }
-    destruct (nodup_str (somes desired) && negb (str_mem (s_name s) (somes desired)) &&
-              negb match k with RSelfRef => false | _ => str_mem "__impl" (s_name s :: somes desired) end) eqn:G.
+    destruct (nodup_str (map unraw (somes desired)) && negb (str_mem (unraw (s_name s)) (map unraw (somes desired))) &&
+              negb match k with RSelfRef => false | _ => str_mem "__impl" (map unraw (s_name s :: somes desired)) end) eqn:G.
     + apply andb_true_iff in G as [G G3]. apply andb_true_iff in G as [G1 G2].
       apply nodup_str_NoDup in G1. apply negb_true_iff, str_mem_false_In in G2. apply negb_true_iff in G3.
       destruct k.
       * apply Hr; assumption.
       * apply str_mem_false_In in G3.
         assert (Hx : rules_ok (Some "__impl"%string :: desired) (plain_names args) = true).
-        { apply Hr; cbn [app somes].
+        { apply Hr; cbn [app somes map]; change (unraw "__impl") with "__impl"%string.
           - constructor; [intros Hin; apply G3; right; exact Hin | exact G1].
           - intros [He|Hin]; [apply G3; left; symmetry; exact He | contradiction]. }
         destruct (plain_names args) as [|n0 ns]; [discriminate Hx|]. cbn [rules_ok] in Hx.
         apply andb_true_iff in Hx as [_ Hx]. exact Hx.
       * apply str_mem_false_In in G3.
         assert (Hx : rules_ok (Some "__impl"%string :: desired) (plain_names args) = true).
-        { apply Hr; cbn [app somes].
+        { apply Hr; cbn [app somes map]; change (unraw "__impl") with "__impl"%string.
           - constructor; [intros Hin; apply G3; right; exact Hin | exact G1].
           - intros [He|Hin]; [apply G3; left; symmetry; exact He | contradiction]. }
         destruct (plain_names args) as [|n0 ns]; [discriminate Hx|]. cbn [rules_ok] in Hx.
